@@ -1219,6 +1219,15 @@ def gen_plan(rng, check="C10", size=1, max_steps=60, known_avoid=()):
                         order.append({"s": 9, "t": "touch", "obj": rng.choice(list(pb.objects))})
     order.extend(pending[:30])
     order.extend(late_echoes[:40])
+    # evict, then ask again: with p = 0.3 the history ends with a flood that certainly empties the Parent cache (and thrashes
+    # the value tables), followed by verbatim repeats of up to 8 questions asked before - whatever was only right while a
+    # cache still held an entry shows, whichever question it is
+    if rng.random() < 0.3:
+        asked = [st_ for st_ in order if st_.get("t") == "call" and "store" not in st_ and "lazy" not in st_ and "resume" not in st_]
+        if asked:
+            picks = rng.sample(asked, min(len(asked), rng.randint(3, 8)))
+            order.append({"s": 9, "t": "flood", "n": 1200})
+            order.extend(copy.deepcopy(picks))
     # drop stored-object recipes whose defining step fell beyond max_steps, and steps that use them
     plan = {"check": check, "objects": pb.objects, "steps": order}
     return normalize(plan)
